@@ -26,7 +26,11 @@ def run(ctx):
     # near misses: markers that differ in exactly one place (the value of an `in` / `contains` / extra / == node, one child, one bound):
     # the pairs a comparison that skips a field cannot tell apart
     fam = []
-    for a_, b_ in [("os_name in 'nt posix'", "os_name in 'linux'"), ("'nt' in os_name", "'posix' in os_name"), ("extra == 'a'", "extra == 'b'"),
+    for a_, b_ in [("os.name == 'posix'", "os_name == 'posix'"), ("sys.platform == 'linux'", "sys_platform == 'linux'"), ("platform.machine < 'x86_64'", "platform_machine < 'x86_64'"),
+                   ("'Ubuntu' in platform.version", "'Ubuntu' in platform_version"), ("platform.version in 'Ubuntu Debian'", "platform_version in 'Ubuntu Debian'"),
+                   ("python_implementation == 'CPython'", "platform_python_implementation == 'CPython'"), ("platform.python_implementation != 'PyPy'", "python_implementation != 'PyPy'"),
+                   ("python_version >= '3.8' and os.name == 'posix'", "python_version >= '3.8' and os_name == 'posix'"),
+                   ("os_name in 'nt posix'", "os_name in 'linux'"), ("'nt' in os_name", "'posix' in os_name"), ("extra == 'a'", "extra == 'b'"),
                    ("sys_platform not in 'a b'", "sys_platform not in 'a c'"), ("os_name == 'a'", "os_name == 'b'"), ("python_full_version >= '3.8'", "python_full_version >= '3.9'"),
                    ("python_full_version >= '3.8'", "python_full_version > '3.8'"), ("os_name == 'a' and extra == 'x'", "os_name == 'a' and extra == 'y'"),
                    ("python_version >= '3.8' or os_name in 'java'", "python_version >= '3.8' or os_name in 'nt'"), ("platform_machine in 'x'", "platform_system in 'x'")]:
@@ -113,6 +117,21 @@ def run(ctx):
                 ueq, uc, uh, parsed_eq = urls[0] == 'T', urls[1], urls[2] == 'T', urls[3] == 'T'
                 if ueq != (uc == 'Eq') or (ueq and not uh) or ueq != parsed_eq:
                     ctx.failure('VerbatimUrl ==/cmp/hash incoherent or not on the parsed URL only', how)
+    # VerbatimUrls from every constructor (with and without verbatim text): == / cmp / hash on the parsed URL only
+    VURLS = ['https://example.org/pkg/a-1.0.tar.gz', 'https://example.org/pkg/b-2.0.tar.gz', 'https://EXAMPLE.org/pkg/a-1.0.tar.gz', 'file:///a/b', 'https://h/a/../b', 'https://h/b']
+    HOWS = ['parse', 'given', 'givenx', 'from_url']
+    for ta in VURLS:
+        for tb in VURLS:
+            for ha in HOWS:
+                for hb in HOWS:
+                    r = sess.ask(['vurlrel', ha, S(ta), hb, S(tb)])
+                    ctx.oracle_cases += 1
+                    if r[0] != 'ok':
+                        continue
+                    eq, c1, c2, hs, raw = r[1] == 'T', r[2], r[3], r[4] == 'T', r[5] == 'T'
+                    if eq != (c1 == 'Eq') or {'Lt': 'Gt', 'Gt': 'Lt', 'Eq': 'Eq'}[c1] != c2 or (eq and not hs) or eq != raw:
+                        ctx.failure('VerbatimUrl ==/cmp/hash incoherent or not on the parsed URL only: == %s cmp %s/%s hash-equal %s parsed URLs equal %s' % (eq, c1, c2, hs, raw),
+                                    {'a': ta, 'built_a': ha, 'b': tb, 'built_b': hb})
     # ... and with origins attached: every field that == looks at must also separate under cmp and hash
     ORIGINS = ['none', ['file', S('requirements.txt')], ['file', S('other.txt')], ['project', S('/p'), S('proj')], ['project', S('/p'), S('other')], ['workspace']]
     for a in REQS[:6]:
